@@ -62,7 +62,8 @@ type respSpec struct {
 }
 
 type event struct {
-	kind  byte // F frame, B raw bytes, D handler done, E eof
+	burst []frameSpec // M: frames written in one Write (the read loop may run ahead of the stream loop)
+	kind  byte        // F frame, B raw bytes, D handler done, E eof, M burst, g/u gate
 	fr    frameSpec
 	raw   []byte
 	class string // for B: unknown | goaway:<code> | other
@@ -195,6 +196,13 @@ func (e *event) String() string {
 		return "GS"
 	case 'u':
 		return "RS"
+	case 'M':
+		parts := make([]string, len(e.burst))
+		for i := range e.burst {
+			fe := event{kind: 'F', fr: e.burst[i]}
+			parts[i] = fe.String()
+		}
+		return "M " + strings.Join(parts, " ~ ")
 	}
 	return "?"
 }
@@ -224,6 +232,16 @@ func parseScenario(line string) *scenario {
 		}
 	}
 	for _, p := range parts[1:] {
+		if strings.HasPrefix(p, "M ") {
+			var e event
+			e.kind = 'M'
+			for _, fp := range strings.Split(p[2:], " ~ ") {
+				sub := parseScenario("srv ms=1,hl=1,mb=1 | " + fp)
+				e.burst = append(e.burst, sub.evs[0].fr)
+			}
+			sc.evs = append(sc.evs, e)
+			continue
+		}
 		t := strings.Fields(p)
 		var e event
 		e.kind = t[0][0]
@@ -625,6 +643,13 @@ func runServerScenario(sc *scenario) string {
 			if _, err := c2.Write(e.raw); err != nil {
 				connClosed = true
 			}
+		case 'M':
+			var all []byte
+			for i := range e.burst {
+				all = append(all, e.burst[i].wire()...)
+			}
+			sent += int64(len(e.burst))
+			go func() { _, _ = c2.Write(all) }() // the server may stop reading part way
 		case 'D':
 			evSid = e.sid
 			run.mu.Lock()
